@@ -57,6 +57,11 @@ def gen_pairs(tier, seed):
             h = 20
             for op in ("union", "inter", "diff", "xor", "add"):
                 lines.append(f"ds {op} ${h} $10 $11"); h += 1
+            # a single Dimension on the left of `+`
+            for l in xs:
+                lines.append(f"ds dimadd ${h} ${H[l]} $11"); h += 1
+                for l2 in ys[:1]:
+                    lines.append(f"ds dimadd2 ${h} ${H[l]} ${H[l2]}"); h += 1
             lines.append("dumpall")
             stats["cases"] += 1
             stats["ops"] += 6
